@@ -1,5 +1,6 @@
 import Gpc.Model.Proto
 import Gpc.Model.Arena
+import Gpc.Model.DeferStack
 namespace Gpc.Driver
 open Gpc.Proto Gpc.Arena
 
@@ -10,8 +11,7 @@ structure ArenaSt where
   blocks : List (Nat × Addr × Nat) := []      -- live: (id, address, size), allocation order
   sizes : List (Nat × Nat) := []              -- heap kind: (id, size)
   nextId : Nat := 0
-  deferLen : Nat := 0                         -- scope kind: the defer stack's length and capacity (0 = not created)
-  deferCap : Nat := 0
+  dstack : Gpc.Arena.DeferStack := {}         -- scope kind: the defer stack (`Model/DeferStack.lean`)
 
 def ArenaSt.g (s : ArenaSt) : Nat → Nat := fun c => s.g8 * c / 8
 
@@ -78,13 +78,12 @@ def arenaStep (s : ArenaSt) (toks : List String) : ArenaSt × String :=
     match hdr.toNat?, elem.toNat? with
     | some hdr, some elem =>
       if s.kind != "scope" || s.a.nodes.isEmpty then (s, "bad-op") else
-      if s.deferCap == 0 then
-        let (a', _) := Gpc.Arena.alloc s.g s.a (hdr + 4 * elem)
-        ({ s with a := a', deferLen := 1, deferCap := 4 }, "ok" ++ showTraffic s.a a' 0)
-      else if s.deferLen == s.deferCap then
-        let (a', _) := Gpc.Arena.alloc s.g s.a (s.deferCap * 2 * elem)
-        ({ s with a := a', deferLen := s.deferLen + 1, deferCap := s.deferCap * 2 }, "ok" ++ showTraffic s.a a' 0)
-      else ({ s with deferLen := s.deferLen + 1 }, "ok" ++ showTraffic s.a s.a 0)
+      let st := s.dstack.push hdr elem
+      match st.request with
+      | some n =>
+        let (a', _) := Gpc.Arena.alloc s.g s.a n
+        ({ s with a := a', dstack := st.next }, "ok" ++ showTraffic s.a a' 0)
+      | none => ({ s with dstack := st.next }, "ok" ++ showTraffic s.a s.a 0)
     | _, _ => (s, "bad-op")
   | ["delete"] => ({}, "ok")
   | ["end"] => ({}, "end")
